@@ -693,3 +693,13 @@ Proof.
   unfold versym_iter_symbols. rewrite Hnum. cbn [bind]. rewrite to_nat_zlen.
   apply versym_iter_ok. exact Htab.
 Qed.
+
+(* the six record layouts this property reads, as regenerated from the live code, are the standard ones *)
+Lemma layouts_standard le is64 :
+  gen_Elf_Verdef le is64 = spec_Elf_Verdef le /\ gen_Elf_Verdaux le is64 = spec_Elf_Verdaux le /\
+  gen_Elf_Verneed le is64 = spec_Elf_Verneed le /\ gen_Elf_Vernaux le is64 = spec_Elf_Vernaux le /\
+  gen_Elf_Versym le is64 = spec_Elf_Versym le /\ gen_Elf_Sym le is64 = spec_Elf_Sym le is64.
+Proof.
+  repeat split; [apply gen_Elf_Verdef_gabi|apply gen_Elf_Verdaux_gabi|apply gen_Elf_Verneed_gabi|
+                 apply gen_Elf_Vernaux_gabi|apply gen_Elf_Versym_gabi|apply gen_Elf_Sym_gabi].
+Qed.
